@@ -1419,4 +1419,483 @@ theorem error_step {a : Auth} {e : AEv} {w : Nat} {er : Err} (hi : AInv a) :
       · simp
       · split <;> simp
 
+
+/-- a resourceState exists only while somebody watches the resource -/
+def Watched (a : Auth) : Prop := ∀ p ∈ a.res, p.2.watchers ≠ []
+
+theorem watched_step {a : Auth} {e : AEv} (hi : AInv a) (hw : Watched a) : Watched (a.step e).auth := by
+  cases e with
+  | update srv gen typ ver es =>
+    simp only [Auth.step]
+    rcases handleUpdate_shape a srv typ ver es with ⟨_, h⟩ | ⟨_, g, hg, hres, _, _⟩
+    · rw [h]; exact hw
+    · intro p' hp'
+      rw [hres] at hp'
+      simp only [List.mem_map] at hp'
+      obtain ⟨_, ⟨p, hp, rfl⟩, rfl⟩ := hp'
+      rw [(updFull_key ..).2.1, (sameCore_fields (sameCore_of_g hg p)).2.1]
+      exact hw p hp
+  | dne k =>
+    intro p' hp'
+    simp only [Auth.step, handleDNE, List.mem_map] at hp'
+    obtain ⟨p, hp, rfl⟩ := hp'
+    split <;> exact hw p hp
+  | failure srv after =>
+    simp only [Auth.step, handleFailure]
+    split
+    · exact hw
+    · split
+      · exact hw
+      · split
+        · intro p' hp'
+          simp only [fallbackTo, List.mem_map] at hp'
+          obtain ⟨p, hp, rfl⟩ := hp'
+          exact hw p hp
+        · exact hw
+  | watch k w =>
+    simp only [Auth.step, watch]
+    split
+    · intro p' hp'
+      simp only [List.mem_append, List.mem_singleton] at hp'
+      rcases hp' with hp' | rfl
+      · exact hw p' hp'
+      · simp [newRState]
+    · intro p' hp'
+      change p' ∈ a.res.map (addWatcher k w) at hp'
+      simp only [List.mem_map] at hp'
+      obtain ⟨p, hp, rfl⟩ := hp'
+      unfold addWatcher; split
+      · simp
+      · exact hw p hp
+  | unwatch k w =>
+    simp only [Auth.step, unwatch]
+    split
+    · exact hw
+    · rename_i r hl
+      split
+      · rename_i hne
+        intro p' hp'
+        change p' ∈ a.res.map (dropWatcher k w) at hp'
+        simp only [List.mem_map] at hp'
+        obtain ⟨p, hp, rfl⟩ := hp'
+        unfold dropWatcher; split
+        · rename_i hpk
+          have : p = (k, r) := eq_of_key_eq hi.keys hp (lookup_mem hl) hpk
+          subst this
+          exact hne
+        · exact hw p hp
+      · split
+        · intro p hp; simp at hp
+        · intro p hp
+          change p ∈ a.res.filter (·.1 ≠ k) at hp
+          exact hw p (List.mem_filter.mp hp).1
+
+/-! ### the subscriptions the authority holds on its channels -/
+
+/-- apply a channel command to the ledger of (server, resource) subscriptions -/
+def ledgerCmd (L : List (Nat × Key)) : Cmd → List (Nat × Key)
+  | .sub i k => L ++ [(i, k)]
+  | .unsub i k => L.filter (· ≠ (i, k))
+  | .release i => L.filter (·.1 ≠ i)
+  | .build _ => L
+
+def ledgerCmds (L : List (Nat × Key)) (cmds : List Cmd) : List (Nat × Key) := cmds.foldl ledgerCmd L
+
+/-- the ledger agrees with the `xdsChannelConfigs` sets of the resource states -/
+def LedgerOK (a : Auth) (L : List (Nat × Key)) : Prop :=
+  ∀ i k, (i, k) ∈ L ↔ ∃ r, (k, r) ∈ a.res ∧ i ∈ r.chans
+
+def removes : Cmd → Nat × Key → Prop
+  | .unsub i k, x => x = (i, k)
+  | .release i, x => x.1 = i
+  | _, _ => False
+
+def isRemoval : Cmd → Prop
+  | .unsub _ _ => True
+  | .release _ => True
+  | _ => False
+
+def adds : Cmd → Nat × Key → Prop
+  | .sub i k, x => x = (i, k)
+  | _, _ => False
+
+def isAdd : Cmd → Prop
+  | .sub _ _ => True
+  | .build _ => True
+  | _ => False
+
+theorem ledger_removals (cmds : List Cmd) (L : List (Nat × Key)) (h : ∀ c ∈ cmds, isRemoval c) (x : Nat × Key) :
+    x ∈ ledgerCmds L cmds ↔ x ∈ L ∧ ∀ c ∈ cmds, ¬ removes c x := by
+  induction cmds generalizing L with
+  | nil => simp [ledgerCmds]
+  | cons c cs ih =>
+    simp only [ledgerCmds, List.foldl_cons]
+    have := ih (ledgerCmd L c) (fun c' hc' => h c' (by simp [hc']))
+    simp only [ledgerCmds] at this
+    rw [this]
+    have hc := h c (by simp)
+    cases c with
+    | unsub i k => simp [ledgerCmd, removes]; constructor <;> (intro h'; simp_all)
+    | release i => simp [ledgerCmd, removes]; constructor <;> (intro h'; simp_all)
+    | sub i k => exact absurd hc (by simp [isRemoval])
+    | build i => exact absurd hc (by simp [isRemoval])
+
+theorem ledger_adds (cmds : List Cmd) (L : List (Nat × Key)) (h : ∀ c ∈ cmds, isAdd c) (x : Nat × Key) :
+    x ∈ ledgerCmds L cmds ↔ x ∈ L ∨ ∃ c ∈ cmds, adds c x := by
+  induction cmds generalizing L with
+  | nil => simp [ledgerCmds]
+  | cons c cs ih =>
+    simp only [ledgerCmds, List.foldl_cons]
+    have := ih (ledgerCmd L c) (fun c' hc' => h c' (by simp [hc']))
+    simp only [ledgerCmds] at this
+    rw [this]
+    have hc := h c (by simp)
+    cases c with
+    | sub i k =>
+      simp only [ledgerCmd, List.mem_append, List.mem_cons, List.not_mem_nil, or_false, exists_eq_or_imp, adds]
+      constructor
+      · rintro ((h' | h') | h')
+        · exact Or.inl h'
+        · exact Or.inr (Or.inl h')
+        · exact Or.inr (Or.inr h')
+      · rintro (h' | h' | h')
+        · exact Or.inl (Or.inl h')
+        · exact Or.inl (Or.inr h')
+        · exact Or.inr h'
+    | build i => simp [ledgerCmd, adds]
+    | unsub i k => exact absurd hc (by simp [isAdd])
+    | release i => exact absurd hc (by simp [isAdd])
+
+theorem exists_map_chans {f : Key × RState → Key × RState} (hk : ∀ p, (f p).1 = p.1)
+    (hc : ∀ p, (f p).2.chans = p.2.chans) (l : List (Key × RState)) (i : Nat) (k : Key) :
+    (∃ r', (k, r') ∈ l.map f ∧ i ∈ r'.chans) ↔ ∃ r, (k, r) ∈ l ∧ i ∈ r.chans := by
+  simp only [List.mem_map]
+  constructor
+  · rintro ⟨r', ⟨p, hp, heq⟩, hi⟩
+    have h1 := hk p; have h2 := hc p
+    rw [heq] at h1 h2
+    simp only at h1 h2
+    exact ⟨p.2, by rw [h1]; exact hp, by rw [← h2]; exact hi⟩
+  · rintro ⟨r, hp, hi⟩
+    refine ⟨(f (k, r)).2, ⟨(k, r), hp, ?_⟩, ?_⟩
+    · have := hk (k, r); simp only at this
+      exact Prod.ext this rfl
+    · rw [hc]; exact hi
+
+structure Bounded (a : Auth) : Prop where
+  pos : 0 < a.n
+  act : ∀ i, a.active = some i → i < a.n
+  chans : ∀ p ∈ a.res, ∀ i ∈ p.2.chans, i < a.n
+
+theorem mem_nextServer {a : Auth} {srv i : Nat} (h : nextServer a srv = some i) :
+    srv < i ∧ i < a.n ∧ i ∉ a.opened := by
+  unfold nextServer at h
+  have := List.mem_of_mem_head? h
+  simp only [List.mem_filter, List.mem_range, Bool.and_eq_true, decide_eq_true_eq, Bool.not_eq_true',
+    List.contains_eq_mem, decide_eq_false_iff_not] at this
+  exact ⟨this.2.1, this.1, this.2.2⟩
+
+theorem handleUpdate_n (a : Auth) (srv : Nat) (typ ver : String) (es : List (String × Upd)) :
+    (handleUpdate a srv typ ver es).auth.n = a.n := by
+  cases hact : a.active with
+  | none => simp [handleUpdate, revert_none hact]
+  | some act =>
+    by_cases h1 : srv = act
+    · subst h1; simp [handleUpdate, revert_same hact, processUpdate_res]
+    · by_cases h2 : act < srv
+      · simp [handleUpdate, revert_below hact h2]
+      · have h3 : srv < act := by omega
+        simp [handleUpdate, revert_above hact h3, processUpdate_res, revertTo]
+
+theorem bounded_step {a : Auth} {e : AEv} (hb : Bounded a) : Bounded (a.step e).auth := by
+  cases e with
+  | update srv gen typ ver es =>
+    simp only [Auth.step]
+    cases hact : a.active with
+    | none => simp only [handleUpdate, revert_none hact]; exact hb
+    | some act =>
+      by_cases h1 : srv = act
+      · subst h1
+        simp only [handleUpdate, revert_same hact, ↓reduceIte, processUpdate_res]
+        refine ⟨hb.pos, hb.act, ?_⟩
+        intro p' hp' i hi
+        simp only [List.mem_map] at hp'
+        obtain ⟨p, hp, rfl⟩ := hp'
+        rw [(updFull_key ..).2.2] at hi
+        exact hb.chans p hp i hi
+      · by_cases h2 : act < srv
+        · simp only [handleUpdate, revert_below hact h2]; exact hb
+        · have h3 : srv < act := by omega
+          simp only [handleUpdate, revert_above hact h3, ↓reduceIte, processUpdate_res]
+          have hlt := hb.act act hact
+          refine ⟨hb.pos, ?_, ?_⟩
+          · intro i hi
+            simp only [revertTo, Option.some.injEq] at hi
+            subst hi; exact Nat.lt_trans h3 hlt
+          · intro p' hp' i hi
+            simp only [revertTo, List.mem_map] at hp'
+            obtain ⟨_, ⟨p, hp, rfl⟩, rfl⟩ := hp'
+            rw [(updFull_key ..).2.2] at hi
+            simp only [restrictChans, List.mem_filter] at hi
+            exact hb.chans p hp i hi.1
+  | dne k =>
+    refine ⟨hb.pos, hb.act, ?_⟩
+    intro p' hp' i hi
+    simp only [Auth.step, handleDNE, List.mem_map] at hp'
+    obtain ⟨p, hp, rfl⟩ := hp'
+    split at hi <;> exact hb.chans p hp i hi
+  | failure srv after =>
+    simp only [Auth.step, handleFailure]
+    split
+    · exact hb
+    · split
+      · exact hb
+      · split
+        · rename_i i hn
+          have hi := mem_nextServer hn
+          refine ⟨hb.pos, ?_, ?_⟩
+          · intro j hj; simp only [fallbackTo, Option.some.injEq] at hj; subst hj; exact hi.2.1
+          · intro p' hp' j hj
+            simp only [fallbackTo, List.mem_map] at hp'
+            obtain ⟨p, hp, rfl⟩ := hp'
+            simp only [List.mem_append, List.mem_singleton] at hj
+            rcases hj with hj | rfl
+            · exact hb.chans p hp j hj
+            · exact hi.2.1
+        · exact hb
+  | watch k w =>
+    simp only [Auth.step, watch]
+    have hcu : (channelToUse a).1.n = a.n ∧ (channelToUse a).2.2 < a.n ∧
+        (∀ i, (channelToUse a).1.active = some i → i < a.n) := by
+      unfold channelToUse
+      cases hact : a.active with
+      | none => exact ⟨rfl, hb.pos, by intro i hi; simp at hi; subst hi; exact hb.pos⟩
+      | some act => exact ⟨rfl, hb.act act hact, by intro i hi; simp only at hi; exact hb.act i hi⟩
+    split
+    · refine ⟨by simp only [hcu.1]; exact hb.pos, by simp only [hcu.1]; exact hcu.2.2, ?_⟩
+      intro p' hp' i hi
+      simp only [hcu.1]
+      simp only [List.mem_append, List.mem_singleton] at hp'
+      rcases hp' with hp' | rfl
+      · exact hb.chans p' hp' i hi
+      · simp only [newRState, List.mem_singleton] at hi; subst hi; exact hcu.2.1
+    · refine ⟨by simp only [hcu.1]; exact hb.pos, by simp only [hcu.1]; exact hcu.2.2, ?_⟩
+      intro p' hp' i hi
+      simp only [hcu.1]
+      change p' ∈ a.res.map (addWatcher k w) at hp'
+      simp only [List.mem_map] at hp'
+      obtain ⟨p, hp, rfl⟩ := hp'
+      unfold addWatcher at hi
+      split at hi <;> exact hb.chans p hp i hi
+  | unwatch k w =>
+    simp only [Auth.step, unwatch]
+    split
+    · exact hb
+    · split
+      · refine ⟨hb.pos, hb.act, ?_⟩
+        intro p' hp' i hi
+        change p' ∈ a.res.map (dropWatcher k w) at hp'
+        simp only [List.mem_map] at hp'
+        obtain ⟨p, hp, rfl⟩ := hp'
+        unfold dropWatcher at hi
+        split at hi <;> exact hb.chans p hp i hi
+      · split
+        · exact ⟨hb.pos, by intro i hi; simp at hi, by intro p hp; simp at hp⟩
+        · refine ⟨hb.pos, hb.act, ?_⟩
+          intro p hp i hi
+          change p ∈ a.res.filter (·.1 ≠ k) at hp
+          exact hb.chans p (List.mem_filter.mp hp).1 i hi
+
+theorem revertCmds_removal (a : Auth) (srv : Nat) : ∀ c ∈ revertCmds a srv, isRemoval c := by
+  intro c hc
+  simp only [revertCmds, List.mem_flatMap, List.mem_filter, List.mem_range, decide_eq_true_eq, List.mem_append,
+    List.mem_map] at hc
+  obtain ⟨i, _, ⟨p, _, rfl⟩ | hc⟩ := hc
+  · trivial
+  · split at hc
+    · simp only [List.mem_singleton] at hc; subst hc; trivial
+    · simp at hc
+
+theorem ledger_step {a : Auth} {e : AEv} {L : List (Nat × Key)} (hi : AInv a) (hb : Bounded a)
+    (hl : LedgerOK a L) : LedgerOK (a.step e).auth (ledgerCmds L (a.step e).cmds) := by
+  cases e with
+  | update srv gen typ ver es =>
+    simp only [Auth.step]
+    cases hact : a.active with
+    | none => simp only [handleUpdate, revert_none hact]; exact hl
+    | some act =>
+      by_cases h1 : srv = act
+      · subst h1
+        simp only [handleUpdate, revert_same hact, ↓reduceIte, processUpdate_res, ledgerCmds, List.foldl_nil]
+        intro i k
+        rw [hl i k]
+        exact (exists_map_chans (fun p => (updFull_key ..).1) (fun p => (updFull_key ..).2.2) a.res i k).symm
+      · by_cases h2 : act < srv
+        · simp only [handleUpdate, revert_below hact h2]; exact hl
+        · have h3 : srv < act := by omega
+          simp only [handleUpdate, revert_above hact h3, ↓reduceIte, processUpdate_res]
+          intro i k
+          rw [ledger_removals _ _ (revertCmds_removal a srv), hl i k]
+          rw [exists_map_chans (fun p => (updFull_key ..).1) (fun p => (updFull_key ..).2.2)]
+          simp only [revertTo, List.mem_map]
+          constructor
+          · rintro ⟨⟨r, hr, hic⟩, hnr⟩
+            have hle : i ≤ srv := by
+              rcases Nat.lt_or_ge srv i with hgt | hle
+              · exfalso
+                apply hnr (Cmd.unsub i k)
+                · simp only [revertCmds, List.mem_flatMap, List.mem_filter, List.mem_range, decide_eq_true_eq,
+                    List.mem_append, List.mem_map]
+                  exact ⟨i, ⟨hb.chans _ hr i hic, hgt⟩, Or.inl ⟨(k, r), ⟨hr, by simpa using hic⟩, rfl⟩⟩
+                · rfl
+              · exact hle
+            exact ⟨{ r with chans := r.chans.filter (· ≤ srv) }, ⟨(k, r), hr, rfl⟩, by simp [hic, hle]⟩
+          · rintro ⟨r', ⟨p, hp, heq⟩, hic⟩
+            simp only [restrictChans, Prod.mk.injEq] at heq
+            obtain ⟨rfl, rfl⟩ := heq
+            simp only [List.mem_filter, decide_eq_true_eq] at hic
+            refine ⟨⟨p.2, hp, hic.1⟩, ?_⟩
+            intro c hc hrem
+            simp only [revertCmds, List.mem_flatMap, List.mem_filter, List.mem_range, decide_eq_true_eq,
+              List.mem_append, List.mem_map] at hc
+            obtain ⟨j, ⟨_, hj⟩, ⟨q, _, rfl⟩ | hc⟩ := hc
+            · simp only [removes, Prod.mk.injEq] at hrem; omega
+            · split at hc
+              · simp only [List.mem_singleton] at hc; subst hc
+                simp only [removes] at hrem; omega
+              · simp at hc
+  | dne k' =>
+    simp only [Auth.step, handleDNE, ledgerCmds, List.foldl_nil]
+    intro i k
+    rw [hl i k]
+    exact (exists_map_chans (f := fun p => if p.1 = k' then (p.1, { p.2 with cache := none, status := .notExist, version := "", err := none }) else p)
+      (fun p => by split <;> rfl) (fun p => by split <;> rfl) a.res i k).symm
+  | failure srv after =>
+    simp only [Auth.step, handleFailure]
+    split
+    · exact hl
+    · split
+      · exact hl
+      · split
+        · rename_i j hn
+          intro i k
+          rw [ledger_adds _ _ (by
+            intro c hc
+            simp only [fallbackTo, List.mem_cons, List.mem_map] at hc
+            rcases hc with rfl | ⟨p, _, rfl⟩ <;> trivial), hl i k]
+          simp only [fallbackTo, List.mem_cons, List.mem_map, exists_eq_or_imp, adds, false_or]
+          constructor
+          · rintro (⟨r, hr, hic⟩ | ⟨c, ⟨p, hp, rfl⟩, hadd⟩)
+            · exact ⟨{ r with chans := r.chans ++ [j] }, ⟨(k, r), hr, rfl⟩, by simp [hic]⟩
+            · simp only [adds, Prod.mk.injEq] at hadd
+              obtain ⟨rfl, rfl⟩ := hadd
+              exact ⟨{ p.2 with chans := p.2.chans ++ [i] }, ⟨p, hp, rfl⟩, by simp⟩
+          · rintro ⟨r', ⟨p, hp, heq⟩, hic⟩
+            simp only [Prod.mk.injEq] at heq
+            obtain ⟨rfl, rfl⟩ := heq
+            simp only [List.mem_append, List.mem_singleton] at hic
+            rcases hic with hic | rfl
+            · exact Or.inl ⟨p.2, hp, hic⟩
+            · exact Or.inr ⟨_, ⟨p, hp, rfl⟩, rfl⟩
+        · exact hl
+  | watch k' w =>
+    simp only [Auth.step, watch]
+    have hcu : ∀ c ∈ (channelToUse a).2.1, isAdd c ∧ ∀ x, ¬ adds c x := by
+      intro c hc
+      unfold channelToUse at hc
+      split at hc
+      · simp at hc
+      · simp only [List.mem_singleton] at hc; subst hc; exact ⟨trivial, fun x hx => hx⟩
+    split
+    · rename_i hlk
+      intro i k
+      rw [ledger_adds _ _ (by
+        intro c hc
+        simp only [List.mem_append, List.mem_singleton] at hc
+        rcases hc with hc | rfl
+        · exact (hcu c hc).1
+        · trivial), hl i k]
+      simp only [List.mem_append, List.mem_singleton]
+      constructor
+      · rintro (⟨r, hr, hic⟩ | ⟨c, hc | rfl, hadd⟩)
+        · exact ⟨r, Or.inl hr, hic⟩
+        · exact absurd hadd ((hcu c hc).2 _)
+        · simp only [adds, Prod.mk.injEq] at hadd
+          obtain ⟨rfl, rfl⟩ := hadd
+          exact ⟨_, Or.inr rfl, by simp [newRState]⟩
+      · rintro ⟨r, hr | heq, hic⟩
+        · exact Or.inl ⟨r, hr, hic⟩
+        · simp only [Prod.mk.injEq] at heq
+          obtain ⟨rfl, rfl⟩ := heq
+          simp only [newRState, List.mem_singleton] at hic
+          subst hic
+          exact Or.inr ⟨_, Or.inr rfl, rfl⟩
+    · intro i k
+      rw [ledger_adds _ _ (fun c hc => (hcu c hc).1), hl i k]
+      change _ ↔ ∃ r, (k, r) ∈ a.res.map (addWatcher k' w) ∧ i ∈ r.chans
+      rw [exists_map_chans (by intro p; unfold addWatcher; split <;> rfl) (by intro p; unfold addWatcher; split <;> rfl)]
+      constructor
+      · rintro (h | ⟨c, hc, hadd⟩)
+        · exact h
+        · exact absurd hadd ((hcu c hc).2 _)
+      · exact Or.inl
+  | unwatch k' w =>
+    simp only [Auth.step, unwatch]
+    split
+    · exact hl
+    · rename_i r hlk
+      have hm := lookup_mem hlk
+      split
+      · simp only [ledgerCmds, List.foldl_nil]
+        intro i k
+        rw [hl i k]
+        change _ ↔ ∃ r, (k, r) ∈ a.res.map (dropWatcher k' w) ∧ i ∈ r.chans
+        rw [exists_map_chans (by intro p; unfold dropWatcher; split <;> rfl) (by intro p; unfold dropWatcher; split <;> rfl)]
+      · -- the last watcher leaves: unsubscribe everywhere, drop the state
+        have hrem : ∀ (extra : List Cmd), (∀ c ∈ extra, isRemoval c) →
+            ∀ i k, (i, k) ∈ ledgerCmds L ((r.chans.map fun j => Cmd.unsub j k') ++ extra) →
+              ∃ r', (k, r') ∈ a.res.filter (·.1 ≠ k') ∧ i ∈ r'.chans := by
+          intro extra hex i k hmem
+          rw [ledger_removals _ _ (by
+            intro c hc
+            simp only [List.mem_append, List.mem_map] at hc
+            rcases hc with ⟨j, _, rfl⟩ | hc
+            · trivial
+            · exact hex c hc), hl i k] at hmem
+          obtain ⟨⟨r', hr', hic⟩, hnr⟩ := hmem
+          refine ⟨r', ?_, hic⟩
+          simp only [List.mem_filter, decide_eq_true_eq, ne_eq, decide_not, Bool.not_eq_eq_eq_not, Bool.not_true,
+            decide_eq_false_iff_not]
+          refine ⟨hr', ?_⟩
+          intro hkk
+          subst hkk
+          have : (k, r') = (k, r) := eq_of_key_eq hi.keys hr' hm rfl
+          simp only [Prod.mk.injEq, true_and] at this
+          subst this
+          exact hnr (Cmd.unsub i k) (by simp only [List.mem_append, List.mem_map]; exact Or.inl ⟨i, hic, rfl⟩) rfl
+        split
+        · rename_i hnil
+          intro i k
+          constructor
+          · intro hmem
+            obtain ⟨r', hr', _⟩ := hrem _ (by intro c hc; simp only [List.mem_map] at hc; obtain ⟨j, _, rfl⟩ := hc; trivial) i k hmem
+            rw [hnil] at hr'; simp at hr'
+          · rintro ⟨r', hr', _⟩; simp at hr'
+        · intro i k
+          constructor
+          · intro hmem
+            have := hrem [] (by simp) i k (by simpa using hmem)
+            exact this
+          · rintro ⟨r', hr', hic⟩
+            change (k, r') ∈ a.res.filter (·.1 ≠ k') at hr'
+            simp only [List.mem_filter, decide_eq_true_eq, ne_eq, decide_not, Bool.not_eq_eq_eq_not, Bool.not_true,
+              decide_eq_false_iff_not] at hr'
+            rw [ledger_removals _ _ (by intro c hc; simp only [List.mem_map] at hc; obtain ⟨j, _, rfl⟩ := hc; trivial), hl i k]
+            refine ⟨⟨r', hr'.1, hic⟩, ?_⟩
+            intro c hc hrm
+            simp only [List.mem_map] at hc
+            obtain ⟨j, _, rfl⟩ := hc
+            simp only [removes, Prod.mk.injEq] at hrm
+            exact hr'.2 hrm.2
+
 end GrpcProofs.Lemmas.XdsAuth
